@@ -11,6 +11,7 @@ import (
 	"testing"
 
 	"github.com/coregx/coregex"
+	"github.com/coregx/coregex/dfa/lazy"
 )
 
 func hammer(t *testing.T, pattern string, inputs []string, f func(re *coregex.Regex, s string)) {
@@ -98,4 +99,29 @@ func TestConcurrentFindSpans(t *testing.T) {
 			t.Errorf("%s: %d wrong spans under concurrent use", pat, n)
 		}
 	}
+}
+
+// The lazy DFA's NFA fallback (cache full, empty haystack): before fix fbe798e every search of one DFA ran the
+// same d.pikevm. Four goroutines, each with its own cache as the API requires, on a DFA whose one-byte cache makes
+// every search fall back; go test -race reported nfa.(*PikeVM).SearchAt under lazy.(*DFA).nfaFallback.
+func TestRaceLazyDFAFallback(t *testing.T) {
+	d, err := lazy.CompilePatternWithConfig(`[a-c]+\d{2,}z|q+w`, lazy.DefaultConfig().WithCacheCapacity(1).WithMaxCacheClears(0))
+	if err != nil {
+		t.Fatal(err)
+	}
+	inputs := [][]byte{[]byte("x abc12z"), []byte("qqw"), []byte("bbb999z yy"), []byte("")}
+	var wg sync.WaitGroup
+	for g := 0; g < 4; g++ {
+		wg.Add(1)
+		go func(g int) {
+			defer wg.Done()
+			cache := d.NewCache()
+			for i := 0; i < 300; i++ {
+				h := inputs[(g+i)%len(inputs)]
+				d.FindAt(cache, h, 0)
+				d.IsMatch(cache, h)
+			}
+		}(g)
+	}
+	wg.Wait()
 }
